@@ -88,6 +88,11 @@ func genWal(g *gen, n int, tier string, w *bufio.Writer) {
 					v = nil
 				}
 				fmt.Fprintln(w, join("append", strconv.Itoa(op), hx(k), hx(v)))
+				if len(k)+len(v) > wal.MaxRecordSize-40 && g.chance(1, 2) {
+					// a (possibly fragmented) large entry as the LAST thing in the file when it is reopened / rotated
+					fmt.Fprintln(w, g.pickS("reopen", "reopen", "rotate"))
+					fmt.Fprintln(w, "replay")
+				}
 			case x < 65:
 				m := g.intn(6)
 				if g.chance(1, 10) {
